@@ -5197,7 +5197,31 @@ impl<'a, 'graph> Builder<'a, 'graph> {
                 self.graph.packages.add_top_level_package(nv.clone());
               }
 
-              let specifier = base_url.join(export_value).unwrap();
+              let specifier = match base_url.join(export_value) {
+                Ok(specifier) => specifier,
+                Err(_) => {
+                  self.graph.module_slots.insert(
+                    resolution_item.specifier.clone(),
+                    ModuleSlot::Err(
+                      ModuleErrorKind::Load {
+                        specifier: resolution_item.specifier,
+                        maybe_referrer: resolution_item.maybe_range,
+                        err: JsrLoadError::UnknownExport {
+                          export_name: export_name.to_string(),
+                          nv: Box::new(resolution_item.nv_ref.into_inner().nv),
+                          exports: version_info
+                            .exports()
+                            .map(|(k, _)| k.to_string())
+                            .collect::<Vec<_>>(),
+                        }
+                        .into(),
+                      }
+                      .into_box(),
+                    ),
+                  );
+                  continue;
+                }
+              };
               self
                 .graph
                 .redirects
